@@ -47,6 +47,7 @@ def case(cfg, trims):
     beta = float(s.state.get_current("beta"))
     if not (abs(1 - beta) < 1e-4):
         bad.append(("post-beta", f"run() returned with beta={beta!r}"))
+    out["ended_below_one"] = int(beta < 1.0)
     lwu, lwn, lz, ess = mis_ref(H["logl"], H["beta"], H["logz"], 1.0)
     if float(ess) < c["n_total"] * (1 - 1e-9):
         bad.append(("post-ess", f"run(n_total={c['n_total']}) returned with reference ESS {float(ess):.3f} over the whole history"))
@@ -277,7 +278,8 @@ def run():
     trims = TRIMS[:5] if ck.quick else TRIMS
     ck.tables["pairwise_coverage"] = cover.coverage(rows, FACTORS, 2)
     ck.tables["threeway_coverage"] = cover.coverage(rows, FACTORS, 3)
-    tasks = [("tvf.checks.c12:case", dict(cfg=dict(to_cfg(r, ck.subseed("cfg", i)), reopen=(i % 2 == 0), rerun=(i % 3 == 1), ragged=(i % 3 == 2)), trims=trims), None) for i, r in enumerate(rows)]
+    tasks = [("tvf.checks.c12:case", dict(cfg=dict(to_cfg(r, ck.subseed("cfg", i)), reopen=(i % 2 == 0), rerun=(i % 3 == 1), ragged=(i % 3 == 2),
+                                                 pin_limit=([None, 1 - 5e-5, None, 1 - 9e-5][i % 4])), trims=trims), None) for i, r in enumerate(rows)]
     for i, st, val in farm.run(tasks, timeout=900, progress="C12"):
         cfg = tasks[i][1]["cfg"]
         if st == "timeout":
@@ -291,6 +293,7 @@ def run():
         ck.event("posterior() option combinations called", val["combos"])
         ck.event("finished runs re-opened from their final checkpoint", val.get("reopened", 0))
         ck.event("second run() on the same sampler object judged", val.get("rerun", 0))
+        ck.event("runs that returned with a temperature strictly inside (1 - 1e-4, 1) (injected ESS limit)", val.get("ended_below_one", 0))
         ck.event("runs continued with another particle count (stored batches of different sizes)", val.get("ragged", 0))
         ck.event("posterior rows identified through the evaluation log", val["rows"])
         seen = set()
